@@ -39,6 +39,7 @@ import os
 import random
 import shutil
 import sys
+import tempfile
 import traceback
 
 sys.path.insert(0, os.path.dirname(os.path.abspath(__file__)))
@@ -90,6 +91,18 @@ class Ctx(object):
   ops = 0           # operator calls of the current run
   oob = True        # trace while bodies once out of band
   max_iter = 200
+  stats = {}        # what the operator calls of this process exercised (coverage evidence)
+
+
+def _stat(key, n=1):
+  Ctx.stats[key] = Ctx.stats.get(key, 0) + n
+
+
+def _note_state(names, state):
+  if any(not n.isidentifier() for n in names):
+    _stat('ops_with_composite_state')
+  if any(type(v).__name__ in ('Undefined', 'UndefinedReturnValue') for v in state):
+    _stat('ops_carrying_undefined')
 
 
 def _ag():
@@ -125,6 +138,10 @@ def f_if_stmt(cond, body, orelse, get_state, set_state, symbol_names, nouts):
   if not 0 <= nouts <= len(names):
     raise StateShape('nouts=%r with %d symbols' % (nouts, len(names)))
   s0, k0 = _get(get_state, names), _ctr()
+  _stat('if_stmt')
+  _note_state(names, s0)
+  if nouts < len(names):
+    _stat('if_stmt_with_restored_non_outputs')
   _inject(set_state, names, s0, k0)
   body()
   sb, kb = _get(get_state, names), _ctr()
@@ -140,6 +157,8 @@ def f_while_stmt(test, body, get_state, set_state, symbol_names, opts):
   Ctx.ops += 1
   names = tuple(symbol_names)
   state, k = _get(get_state, names), _ctr()
+  _stat('while_stmt')
+  _note_state(names, state)
   if Ctx.oob:
     # "loop body traced once even for zero iterations": the result of the trace is thrown away
     _inject(set_state, names, state, k)
@@ -167,6 +186,8 @@ def f_for_stmt(iter_, extra_test, body, get_state, set_state, symbol_names, opts
   Ctx.ops += 1
   names = tuple(symbol_names)
   state, k = _get(get_state, names), _ctr()
+  _stat('for_stmt')
+  _note_state(names, state)
   n = 0
   for target in iter_:
     _inject(set_state, names, state, k)
@@ -255,11 +276,18 @@ def wrap(body_lines, final='0'):
 class Env(object):
   """Names a block works on.  comp: composite writes allowed; top: directly in f, outside control flow."""
 
-  def __init__(self, x, y, z, comp, ret, top, infn=False):
+  def __init__(self, x, y, z, comp, ret, top, infn=False, fns=()):
     self.x, self.y, self.z, self.comp, self.ret, self.top, self.infn = x, y, z, comp, ret, top, infn
+    self.fns = tuple(fns)       # closures in scope: (name, None) pure, (name, [nonlocal names]) mutating
 
   def nested(self):
-    return Env(self.x, self.y, self.z, self.comp, self.ret, False, self.infn)
+    return Env(self.x, self.y, self.z, self.comp, self.ret, False, self.infn, self.fns)
+
+  def with_fns(self, fns):
+    return Env(self.x, self.y, self.z, self.comp, self.ret, self.top, self.infn, fns)
+
+  def pure_fns(self):
+    return tuple(f for f in self.fns if f[1] is None)
 
   def fmt(self, s, n=0):
     return s.format(x=self.x, y=self.y, z=self.z, n=n)
@@ -318,9 +346,20 @@ class PureFiller(object):
 
   def fill(self, tree, env, ind):
     out = [self.leaf(env, ind)]
+    defs = []
     for node in tree:
+      self.last_def = None
       out += self.node(node, env, ind)
+      if node[0] == 'def':
+        defs.append(self.last_def)
       out.append(self.leaf(env, ind))
+    # deferred calls: the closure is called again after the control flow that followed its definition
+    for name, mutating in defs:
+      if not mutating:
+        out.append('%s%s = %s(%s)' % (ind, env.y, name, env.z))
+      elif env.top and not env.infn and not self.f_returned:
+        # the nonlocal name is dead here except through the closure (D4 pattern): call, then overwrite it
+        out += ['%s%s = %s(%s)' % (ind, env.y, name, env.z), '%s%s = %s + 1' % (ind, env.x, env.y)]
     return out
 
   def node(self, node, env, ind):
@@ -371,7 +410,10 @@ class PureFiller(object):
         genv = Env('p', 'q_%d' % u, 'r_%d' % u, False, 'return p + {n}', True, True)
         head = ['%sdef %s(p):' % (ind, name), '%s%s = %s + 1' % (ind2, genv.y, env.x), '%s%s = %s' % (ind2, genv.z, env.y)]
         tail = '%sreturn p + %s + %s' % (ind2, genv.y, genv.z)
-      return head + self.fill(node[1], genv, ind2) + [tail, '%s%s = %s(%s)' % (ind, env.y, name, env.z)]
+      mutating = genv.comp
+      body = self.fill(node[1], genv, ind2)
+      self.last_def = (name, mutating)
+      return head + body + [tail, '%s%s = %s(%s)' % (ind, env.y, name, env.z)]
     raise AssertionError(k)
 
 
@@ -443,6 +485,16 @@ class RGen(object):
   def leaf(self, env, ind):
     r = self.rnd.random()
     v = self.rnd.choice(env.vars)
+    if env.fns and self.rnd.random() < 0.15:
+      # deferred call of a closure defined earlier in this or an enclosing block
+      name, nl = self.rnd.choice(env.fns)
+      if nl is None:
+        return ['%s%s = %s(%s)' % (ind, v, name, self.atom(env))]
+      if env.top and not env.infn and not self.f_returned:
+        out = ['%s%s = %s(%s)' % (ind, v, name, self.atom(env))]
+        if self.rnd.random() < 0.5:
+          out.append('%s%s = %s' % (ind, nl[0], self.num()))   # the nonlocal name was live only through the closure
+        return out
     if r < 0.3:
       return ['%s%s = %s' % (ind, v, self.expr(env))]
     if r < 0.42:
@@ -468,9 +520,14 @@ class RGen(object):
     for _ in range(self.rnd.randint(1, 3)):
       if budget[0] > 0 and depth < self.max_depth and self.rnd.random() < 0.6:
         budget[0] -= 1
+        self.new_def = None
         lines += self.compound(env, ind, depth, in_loop, budget, jumps)
+        if self.new_def is not None:
+          env = env.with_fns(env.fns + (self.new_def,))
+          self.new_def = None
       else:
         lines += self.leaf(env, ind)
+    self.new_def = None
     return lines
 
   def jump_tail(self, env, ind, in_loop, ret_ok):
@@ -557,18 +614,20 @@ class RGen(object):
         for i, v in enumerate(rest):
           key = [kk for kk in 'xyz' if names[kk] == v][0]
           names[key] = 'q%d_%d' % (i, u)
-        genv = Env(names['x'], names['y'], names['z'], True, None, True, True)
+        genv = Env(names['x'], names['y'], names['z'], True, None, True, True, env.pure_fns())
         head = (['%sdef %s(p):' % (ind, name), '%snonlocal %s' % (ind2, ', '.join(nl))]
                 + ['%s%s = p + %s' % (ind2, names[kk], self.atom(env)) for kk in 'xyz' if names[kk] not in env.vars])
         body = self.block(genv, ind2, depth + 1, False, budget, 'l')
         tail = '%sreturn %s + %s' % (ind2, ' + '.join(nl), self.atom(genv))
       else:
-        genv = Env('p', 'q_%d' % u, 'r_%d' % u, False, 'return p + {n}', True, True)
+        nl = None
+        genv = Env('p', 'q_%d' % u, 'r_%d' % u, False, 'return p + {n}', True, True, env.pure_fns())
         head = ['%sdef %s(p):' % (ind, name), '%s%s = %s' % (ind2, genv.y, self.expr(env)),
                 '%s%s = %s' % (ind2, genv.z, self.atom(env))]
         body = self.block(genv, ind2, depth + 1, False, budget, 'rl')
         tail = '%sreturn %s + %s' % (ind2, genv.x, self.atom(genv))
       v = self.rnd.choice(env.vars)
+      self.new_def = (name, nl)
       return head + body + [tail, '%s%s = %s(%s)' % (ind, v, name, self.atom(env))]
     if k == 'ret':
       self.f_returned = self.f_returned or not env.infn
@@ -583,7 +642,7 @@ class RGen(object):
     budget = [size]
     body = self.block(F_ENV, '  ', 0, False, budget)
     while budget[0] > 0 and len(body) < 60:
-      body += self.block(F_ENV, '  ', 0, False, budget)
+      body += self.block(F_ENV, '  ', 0, False, budget)   # (closures of the previous chunk are not called again)
     return wrap(body)
 
 
@@ -634,11 +693,31 @@ def f(t, c, a):
   return None
 '''
 
+GETTER_WITNESS = progen.HEADER + '''
+def f(t, c, a):
+  y = 1
+  if c():
+    if c():
+      y = 3
+    else:
+      y = 4
+    y = y + 1
+    a[0] = y
+  return (a[0],)
+'''
+
+GETTER_KIND, GETTER_SIG = 'getter-unbound-local', 'block-local-variable-defined-before-the-block'
+
 # (kind, sig, source, decisions, what); the default program space keeps all of them out by construction
 WITNESSES = [
     ('known-D1', 'for-target-killed-on-exit-edge', D1_WITNESS, (True,),
      'D1: for-loop target assigned before the loop and read after it: the conditional before the loop does not '
      'output x'),
+    (GETTER_KIND, GETTER_SIG, GETTER_WITNESS, (True, True),
+     'y is assigned before the outer conditional but is neither live into nor out of it, so it becomes a local '
+     'of if_body; the inner conditional carries y as state, and because a definition of y reaches it (y = 1) no '
+     '`y = ag__.Undefined(...)` is emitted: get_state() of the inner conditional raises NameError (free variable '
+     'not bound) for any backend that calls it before running a branch'),
     ('nouts-nonlocal', 'nonlocal-update-not-an-output', NONLOCAL_WITNESS, (True,),
      'a conditional in a nested def that reads and updates a `nonlocal` name which is not read later in the same '
      'def gets nouts=0 (input_only = basic & live_in - live_out ignores nonlocals): a staging backend restores y '
@@ -676,21 +755,29 @@ def check_witnesses():
 
 # ====================================================================================== driver
 
-def _sig(src, o1, o2):
-  """short stable class of a difference"""
-  if o2['outcome'][0] == 'raise':
-    return 'raise-' + o2['outcome'][1].split(':')[0]
-  if o1['outcome'] != o2['outcome']:
-    return 'result'
+def _classify(o1, o2):
+  """(kind, sig): short stable class of a difference"""
+  out = o2['outcome']
+  if out[0] == 'raise':
+    if out[1].startswith('NameError: cannot access free variable') and out[2] and out[2][-1].startswith('get_state'):
+      return GETTER_KIND, GETTER_SIG       # same class as the explicit witness
+    return 'functional-difference', 'raise-' + out[1].split(':')[0]
+  if o1['outcome'] != out:
+    return 'functional-difference', 'result'
   if o1['a'] != o2['a'] or o1['G'] != o2['G']:
-    return 'mutable-state'
-  return 'decisions-consumed'
+    return 'functional-difference', 'mutable-state'
+  return 'functional-difference', 'decisions-consumed'
+
+
+INPUTS = [(5, 7), (1, 2), (0, -3), (2, 0)]     # initial content of the mutable argument `a`
 
 
 def check_program(item):
   idx, src, maxlen, cap = item
+  a0 = INPUTS[idx % len(INPUTS)]
   name = 'vp_c02_%d_%d' % (os.getpid(), idx)
-  res = dict(idx=idx, runs=0, nontrivial=False, failure=None, skipped=None)
+  res = dict(idx=idx, runs=0, nontrivial=False, failure=None, stats=None)
+  Ctx.stats = {}
   try:
     mod = harness.load_source(src, name)
   except SyntaxError as e:
@@ -705,26 +792,28 @@ def check_program(item):
       return res
 
     def run(bits):
-      o1 = observe(mod.f, mod, bits, False)
+      o1 = observe(mod.f, mod, bits, False, a0)
       if o1['outcome'][0] != 'return':
         # the quantifier is over total programs: an original that raises is a generator bug
         if res['failure'] is None:
           res['failure'] = dict(kind='generator-bug', sig='original-raises', what=str(o1['outcome']),
                                 program=src, decisions=list(bits))
         return o1['used']
-      o2 = observe(g, mod, bits, True)
+      o2 = observe(g, mod, bits, True, a0)
       res['runs'] += 1
       if o2['ops'] >= 2:
         res['nontrivial'] = True
       same = (o1['outcome'], o1['a'], o1['G'], o1['used']) == (o2['outcome'], o2['a'], o2['G'], o2['used'])
       if not same and res['failure'] is None:
-        res['failure'] = dict(kind='functional-difference', sig=_sig(src, o1, o2),
+        kind, sig = _classify(o1, o2)
+        res['failure'] = dict(kind=kind, sig=sig,
                               what='converted function under the functional backend differs from the original',
-                              decisions=list(bits), original=o1, functional=o2, program=src)
+                              decisions=list(bits), a0=list(a0), original=o1, functional=o2, program=src)
       return o1['used']
     harness.adaptive_vectors(run, max_len=maxlen, cap=cap)
   finally:
     harness.unload(name)
+    res['stats'] = Ctx.stats
   return res
 
 
@@ -750,14 +839,14 @@ def main():
   ap.add_argument('--random', type=int, default=None)
   ap.add_argument('--maxlen', type=int, default=6)
   ap.add_argument('--cap', type=int, default=None)
-  ap.add_argument('--maxfail', type=int, default=10)
+  ap.add_argument('--maxfail', type=int, default=12)
   ap.add_argument('--no-oob', action='store_true', help='do not trace while bodies out of band')
   ap.add_argument('--dump', type=int, default=None, help='print program IDX and exit')
   a = ap.parse_args()
   thorough = a.tier == 'thorough'
   K = a.k if a.k is not None else (3 if thorough else 2)
   nrand = a.random if a.random is not None else (10000 if thorough else 1000)
-  cap = a.cap if a.cap is not None else (40 if thorough else 24)
+  cap = a.cap if a.cap is not None else 48
   L = len(LEAVES)
   offsets = [a.seed % L] + ([(a.seed + 5) % L, (a.seed + 9) % L] if thorough else [])
   Ctx.oob = not a.no_oob
@@ -765,14 +854,19 @@ def main():
   if a.dump is not None:
     print(items[a.dump][1])
     return
+  # malt.pyct.loader leaves one generated file per conversion in the temp dir (forked workers never run its
+  # atexit hook): point tempfile at our own scratch directory, which is removed at the end
+  tempfile.tempdir = harness.scratch_dir()
   saved = (_ag().if_stmt, _ag().while_stmt, _ag().for_stmt)
   programs = runs = nontrivial = 0
-  failures, samples, seen, sigs = [], [], set(), {}
+  failures, samples, seen, sigs, stats = [], [], set(), {}, {}
   try:
     failures += check_witnesses()
     for r in harness.pool_map(check_program, items, chunksize=2):
       programs += 1
       runs += r['runs']
+      for kk, vv in (r['stats'] or {}).items():
+        stats[kk] = stats.get(kk, 0) + vv
       src = items[r['idx']][1]
       h = hashlib.sha1(src.encode()).hexdigest()
       if r['nontrivial'] and h not in seen:
@@ -791,14 +885,14 @@ def main():
     shutil.rmtree(harness.scratch_dir(), ignore_errors=True)
   harness.emit(dict(
       evaluated=runs, distinct_nontrivial=nontrivial, programs=programs, skeleton_programs=nskel,
-      random_programs=nrand, K=K, seed=a.seed, tier=a.tier, out_of_band_trace=Ctx.oob, failure_classes=sigs,
+      random_programs=nrand, K=K, seed=a.seed, tier=a.tier, out_of_band_trace=Ctx.oob, failure_classes=sigs, operator_calls=stats,
       rule='programs = pure fillings of progen.skeletons(K) without raise/except (x%d leaf offsets) + seeded random '
-           'pure programs (if/elif/else, while, for, break/continue/return, try/finally, with, nested defs, depth<=4, '
+           'pure programs, input a in %r (if/elif/else, while, for, break/continue/return, try/finally, with, nested defs, depth<=4, '
            'o.v / d[k] / a[i] / G[0] state); each run under all decision vectors up to length %d (adaptive, cap %d); '
            'a case = one (program, vector): original vs converted under the functional backend (both branches from '
            'the same state, non-outputs restored, loop state scrambled and re-injected before every test/body call, '
            'while body traced once out of band); non-trivial = the run made >= 2 operator calls'
-           % (len(offsets), a.maxlen, cap),
+           % (len(offsets), INPUTS, a.maxlen, cap),
       samples=samples, failures=failures))
 
 
